@@ -47,6 +47,12 @@ class E4(ValueError):
 class E5(KeyError):
     def __init__(self, a, b, c):
         KeyError.__init__(self, a)
+class E6(E4):
+    pass
+class E7(E2):
+    pass
+class E8(E1):
+    pass
 class CMX(object):
     def __enter__(self):
         return self
@@ -63,6 +69,12 @@ FAILURES = {
     'raise_ValueError': "raise ValueError('bad value')",
     'raise_E4_valueerror_subclass_custom_init': "raise E4('key', x)",
     'raise_E5_keyerror_subclass_custom_init': "raise E5('k', 1, 2)",
+    'raise_E6_inherits_custom_init_of_user_base': "raise E6('key', x)",
+    'raise_E7_inherits_optional_arg_init': "raise E7('seven')",
+    'raise_E8_plain_subclass_of_plain_user_class': "raise E8('eight %d' % x)",
+    'native_dict_pop': "y = {'a': 1}.pop('zz')",
+    'native_math_domain': "y = __import__('math').sqrt(x - x - 1)",
+    'wrong_arity_call': "y = O(1, 2)",
     'raise_UnicodeDecodeError': "raise UnicodeDecodeError('utf-8', b'x', 0, 1, 'bad')",
     'raise_KeyError': "raise KeyError('missing')",
     'raise_RuntimeError': "raise RuntimeError('rt\\nsecond line')",
